@@ -157,7 +157,10 @@ def typed_terms(tier: str) -> Dict[str, List[Any]]:
     num0 = [('f', 'x'), ('f', 'y'), ('f', 'K'), ('fa', ('f', 'm'), 'x'), ('fa', ('fa', ('f', 'd'), 'in'), 'y'), ('idx', ('f', 'xs'), L(0)), ('idx', ('f', 'fx'), L(2)),
             ('idx', ('f', 'xs'), ('f', 'i')), ('fa', ('idx', ('f', 'ms'), L(1)), 'x'), ('fa', ('idx', ('f', 'fm'), L(1)), 'y'), ('idx', ('fa', ('f', 'm'), 'zs'), L(3)),
             ('idx', ('idx', ('f', 'xss'), L(1)), L(0)), ('fa', A, 'x'), ('fa', A, 'MAXV'), ('idx', ('fa', A, 'xs'), L(3)), ('fa', ('fa', A, 'm'), 'y'),
-            ('idx', ('f', 'xs'), ('fa', A, 'w')), L(1), L(2.5), L(0)]
+            ('idx', ('f', 'xs'), ('fa', A, 'w')), L(1), L(2.5), L(0),
+            # an index that carries references in the MIDDLE of a path (not the last accessor)
+            ('fa', ('idx', ('f', 'ms'), ('f', 'i')), 'x'), ('idx', ('idx', ('f', 'xss'), ('f', 'i')), L(1)), ('fa', ('idx', ('f', 'fm'), ('bin', '-', ('f', 'i'), ('fa', A, 'w'))), 'y'),
+            ('idx', ('fa', ('idx', ('f', 'ms'), ('idx', ('f', 'xs'), L(0))), 'zs'), ('f', 'i'))]
     bool0 = [('f', 'p'), ('f', 'q'), ('f', 'FLAG'), ('fa', ('f', 'm'), 'p'), ('idx', ('f', 'ps'), L(0)), ('fa', A, 'p'), ('fa', ('idx', ('f', 'ms'), L(0)), 'p'), L(True)]
     str0 = [('f', 's'), ('f', 't'), ('f', 'NAME'), ('fa', ('f', 'm'), 's'), ('idx', ('f', 'ss'), L(1)), ('fa', A, 's'), ('str', 'a')]
     narr = [('f', 'xs'), ('f', 'fx'), ('fa', ('f', 'm'), 'zs'), ('fa', A, 'xs'), ('idx', ('f', 'xss'), L(0))]
@@ -220,3 +223,28 @@ def fault_variants(ref) -> List[Tuple[str, Any]]:
     out.append(('field-of-it', ('fa', ref, 'x')))
     out.append(('index-of-it', ('idx', ref, L(0))))
     return out
+
+
+def rename_quantifiers_apart(spec, counter=None):
+    """give every quantifier its own variable name (v_1, v_2, ...): same meaning, no name shared between quantifiers"""
+    counter = counter if counter is not None else [0]
+
+    def sub(s, old, new):
+        if s[0] == 'var' and s[1] == old:
+            return ('var', new)
+        if s[0] == 'q' and s[2] == old:
+            return s  # shadowed (not produced by the generators)
+        return tuple(sub(t, old, new) if isinstance(t, tuple) else t for t in s)
+
+    def walk(s):
+        if not isinstance(s, tuple):
+            return s
+        if s[0] == 'q':
+            counter[0] += 1
+            new = f'v_{counter[0]}'
+            dom = walk(s[3])
+            body = walk(sub(s[4], s[2], new))
+            return ('q', s[1], new, dom, body)
+        return tuple(walk(t) if isinstance(t, tuple) else t for t in s)
+
+    return walk(spec)
